@@ -125,6 +125,21 @@ def rule_formula(prog, rep):
         r1 = bij.rank1_atoms(prog, c)
         compare(rep, "C07.formula", site, f"{q}.transform", bij.commute_rank1(got, r1),
                 bij.commute_rank1(want, r1), "transform")
+    # an elementary (non-delegating) bijection class that has no recorded documented formula cannot be vouched for
+    from ..eqterms import child_methods
+    from .bij import bijection_classes, is_stub
+    covered = set(FORMULAS) | {SPLINE, "flowjax.bijections.block_autoregressive_network._CallableToBijection",
+                               "flowjax.bijections.masked_autoregressive.MaskedAutoregressive",
+                               "flowjax.bijections.block_autoregressive_network.BlockAutoregressiveNetwork"}
+    for c in bijection_classes(prog):
+        if c.qualname in covered:
+            continue
+        t0 = method_term(prog, c, "transform")
+        if is_stub(t0) or child_methods(t0):
+            continue   # combinators: C08.def
+        rep.undecided("C07.formula", method_site(prog, c, "transform"), f"{c.qualname}.transform",
+                      f"{c.qualname} is an elementary bijection with no documented formula recorded in refs.FORMULAS: "
+                      f"its transform {show(t0, 100)} is not compared with anything")
     # Flip is its own inverse; Permute gathers with the inverse index tuple backwards
     for q, src in (("flowjax.bijections.utils.Flip", "def inverse(self, y, condition=None):\n    return jnp.flip(y)\n"),
                    ("flowjax.bijections.utils.Permute",
